@@ -16,10 +16,30 @@ Definition pc_ok (q : qst) (j : nat) (p : pc) : Prop :=
   match p with
   | PInit => ~ In j (ever q)
   | PSubmitting => In j (ever q) /\ ~ In j (sched q) /\ ~ In j (cleared q) /\ ~ In j (finished q)
-  | PWaitClear => In j (sched q)
-  | PPollWait | PListing _ | PSleeping => In j (sched q) /\ In j (cleared q)
+  | PWaitClear => In j (ever q)
+  | PPollWait | PListing _ | PSleeping => In j (cleared q)
   | PDone => In j (finished q)
+  | PFailed => True
   end.
+
+(* the undeploy() call: once scancel has run, every job of the snapshot is out of the queue for good *)
+Definition und_ok (u : upc) (sn : option (list nat)) (cqv ev : list nat) : Prop :=
+  match u with
+  | UInit => sn = None
+  | UCancelling ids => sn = Some ids /\ forall x, In x ids -> In x ev
+  | UCancelled | UDone => exists l, sn = Some l /\ forall x, In x l -> In x ev /\ ~ In x cqv
+  end.
+Lemma und_keep : forall u sn cqv ev cqv' ev',
+  und_ok u sn cqv ev -> (forall x, In x cqv' -> In x cqv \/ ~ In x ev) -> (forall x, In x ev -> In x ev') ->
+  und_ok u sn cqv' ev'.
+Proof.
+  intros u sn cqv ev cqv' ev' H Hq He. destruct u; simpl in *; auto.
+  - destruct H as [A B]. split; auto.
+  - destruct H as [l [A B]]. exists l. split; auto. intros x Hx. destruct (B x Hx) as [B1 B2]. split; auto.
+    intro X. destruct (Hq x X); auto.
+  - destruct H as [l [A B]]. exists l. split; auto. intros x Hx. destruct (B x Hx) as [B1 B2]. split; auto.
+    intro X. destruct (Hq x X); auto.
+Qed.
 
 (* the refinement relation; [ex] is a job whose program counter is being changed by the current action *)
 Record Rel (ex : option nat) (c : cst) (q : qst) : Prop := {
@@ -30,7 +50,9 @@ Record Rel (ex : option nat) (c : cst) (q : qst) : Prop := {
         end;
   rsub : forall x, In x (sched q) \/ In x (cleared q) \/ In x (finished q) -> In x (ever q);
   rlu : forall k a, Some k <> ex -> cpc c k = PListing a -> clock c = Some k;
-  rpc : forall k, Some k <> ex -> pc_ok q k (cpc c k)
+  rpc : forall k, Some k <> ex -> pc_ok q k (cpc c k);
+  rsn : snap q = csnap c;
+  rund : und_ok (cund c) (csnap c) (cq c) (ever q)
 }.
 
 Lemma rel_q0 : Rel None c0 q0.
@@ -38,31 +60,32 @@ Proof. constructor; simpl; auto. intros x [H|[H|H]]; destruct H. intros; discrim
 
 Lemma rel_weaken : forall c q j, Rel None c q -> Rel (Some j) c q.
 Proof.
-  intros c q j [a b d e sb f g]. constructor; auto.
+  intros c q j [a b d e sb f g sn un]. constructor; auto.
   - intros k a0 _. apply f. discriminate.
   - intros k _. apply g. discriminate.
 Qed.
 
-(* other jobs keep their facts when the event-level sets grow by j / shrink by j *)
+(* other jobs keep their facts when the event-level sets grow by j / shrink *)
 Lemma pc_ok_other : forall q q' k p j, k <> j -> pc_ok q k p ->
   (forall x, In x (ever q) -> In x (ever q')) -> (forall x, x <> j -> In x (ever q') -> In x (ever q)) ->
-  (forall x, x <> j -> (In x (sched q') <-> In x (sched q))) ->
-  (forall x, x <> j -> (In x (cleared q') <-> In x (cleared q))) ->
+  (forall x, x <> j -> In x (sched q') -> In x (sched q)) ->
+  (forall x, In x (cleared q) -> In x (cleared q')) -> (forall x, x <> j -> In x (cleared q') -> In x (cleared q)) ->
   (forall x, x <> j -> In x (finished q') -> In x (finished q)) ->
   (forall x, In x (finished q) -> In x (finished q')) ->
   pc_ok q' k p.
 Proof.
-  intros q q' k p j Hne H He1 He2 Hs Hc Hf Hf2. destruct p; simpl in *.
+  intros q q' k p j Hne H He1 He2 Hs Hc1 Hc2 Hf Hf2. destruct p; simpl in *.
   - intro X. apply H. apply (He2 k); auto.
   - destruct H as [h1 [h2 [h3 h4]]]. split; [auto|split; [|split]].
     + intro X. apply h2. apply (Hs k); auto.
-    + intro X. apply h3. apply (Hc k); auto.
+    + intro X. apply h3. apply (Hc2 k); auto.
     + intro X. apply h4. apply (Hf k); auto.
-  - apply (Hs k); auto.
-  - destruct H as [h1 h2]. split. apply (Hs k); auto. apply (Hc k); auto.
-  - destruct H as [h1 h2]. split. apply (Hs k); auto. apply (Hc k); auto.
-  - destruct H as [h1 h2]. split. apply (Hs k); auto. apply (Hc k); auto.
   - auto.
+  - auto.
+  - auto.
+  - auto.
+  - auto.
+  - exact I.
 Qed.
 
 Lemma upd_same : forall f j p, upd f j p j = p.
@@ -70,12 +93,14 @@ Proof. intros. unfold upd. now rewrite Nat.eqb_refl. Qed.
 Lemma upd_other : forall f j p k, k <> j -> upd f j p k = f k.
 Proof. intros. unfold upd. destruct (k =? j) eqn:E; auto. apply Nat.eqb_eq in E. congruence. Qed.
 
-(* leaving the loop / going to sleep on a listing that is the cache content *)
+Ltac keepund un := eapply und_keep; [exact un| |]; simpl; auto.
+
+(* leaving the loop / going to sleep / KeyError, on a listing that is the cache content *)
 Lemma decide_ok : forall c q j l,
-  Rel (Some j) c q -> ccache c = Some l -> clock c = None -> In j (sched q) -> In j (cleared q) ->
+  Rel (Some j) c q -> ccache c = Some l -> clock c = None -> In j (cleared q) ->
   exists q', accept q (snd (decide c j l)) = Some q' /\ Rel None (fst (decide c j l)) q'.
 Proof.
-  intros c q j l [a b d e sb f g] Hc Hl Hs Hcl. unfold decide. destruct (mem j l) eqn:Em; simpl.
+  intros c q j l [a b d e sb f g sn un] Hc Hl Hcl. unfold decide. destruct (mem j l) eqn:Em; simpl.
   - exists q. split; auto. constructor; simpl; auto.
     + rewrite Hl in *. exact e.
     + intros k a0 _ Hk. destruct (Nat.eq_dec k j) as [->|Hne].
@@ -84,19 +109,31 @@ Proof.
     + intros k _. destruct (Nat.eq_dec k j) as [->|Hne].
       * rewrite upd_same. simpl. auto.
       * rewrite upd_other; auto. apply g. congruence.
-  - unfold accept, qstep. rewrite d, Hc. rewrite (proj2 (mem_In j (sched q)) Hs), (proj2 (mem_In j (cleared q)) Hcl), Em. simpl.
-    eexists. split; [reflexivity|]. constructor; simpl; auto; try (rewrite b; reflexivity).
-    + rewrite Hl in *. exact e.
-    + intros x [X|[X|[X|X]]]; [apply In_del in X; apply sb; tauto|apply sb; auto|subst; apply sb; auto|apply sb; auto].
-    + intros k a0 _ Hk. destruct (Nat.eq_dec k j) as [->|Hne].
-      * rewrite upd_same in Hk. discriminate.
-      * rewrite upd_other in Hk; auto. apply (f k a0); auto. congruence.
-    + intros k _. destruct (Nat.eq_dec k j) as [->|Hne].
-      * rewrite upd_same. simpl. auto.
-      * rewrite upd_other; auto. assert (Hk : Some k <> Some j) by congruence.
-        apply (pc_ok_other q _ k (cpc c k) j Hne (g k Hk)); simpl; auto; try tauto.
-        -- intros x Hx. rewrite In_del. tauto.
-        -- intros x Hx [X|X]; [congruence|auto].
+  - destruct (mem j (csched c)) eqn:Es; simpl.
+    + (* Unrecord *)
+      unfold accept, qstep. rewrite d, Hc, b, Es. rewrite (proj2 (mem_In j (cleared q)) Hcl), Em. simpl.
+      eexists. split; [reflexivity|]. constructor; simpl; auto.
+      * rewrite Hl in *. exact e.
+      * intros x [X|[X|[X|X]]]; [apply In_del in X; apply sb; rewrite b; tauto|apply sb; auto
+                                 |subst; apply sb; left; rewrite b; apply mem_In; auto|apply sb; auto].
+      * intros k a0 _ Hk. destruct (Nat.eq_dec k j) as [->|Hne].
+        -- rewrite upd_same in Hk. discriminate.
+        -- rewrite upd_other in Hk; auto. apply (f k a0); auto. congruence.
+      * intros k _. destruct (Nat.eq_dec k j) as [->|Hne].
+        -- rewrite upd_same. simpl. auto.
+        -- rewrite upd_other; auto. assert (Hk : Some k <> Some j) by congruence.
+           apply (pc_ok_other q _ k (cpc c k) j Hne (g k Hk)); simpl; auto.
+           ++ intros x Hx X. apply In_del in X. rewrite b. tauto.
+           ++ intros x Hx [X|X]; [congruence|auto].
+    + (* PopMissing: KeyError *)
+      unfold accept, qstep. rewrite b, Es. eexists. split; [reflexivity|]. constructor; simpl; auto.
+      * rewrite Hl in *. exact e.
+      * intros k a0 _ Hk. destruct (Nat.eq_dec k j) as [->|Hne].
+        -- rewrite upd_same in Hk. discriminate.
+        -- rewrite upd_other in Hk; auto. apply (f k a0); auto. congruence.
+      * intros k _. destruct (Nat.eq_dec k j) as [->|Hne].
+        -- rewrite upd_same. simpl. auto.
+        -- rewrite upd_other; auto. apply g. congruence.
 Qed.
 
 Ltac others j Hpc := let k := fresh "k" in let Hne := fresh "Hne" in
@@ -108,14 +145,16 @@ Ltac lk j Rlk := destruct (clock _) as [k0|]; auto;
   let a0 := fresh "a0" in let A := fresh "A" in let B := fresh "B" in
   destruct Rlk as [a0 [A B]]; exists a0; split; auto;
   destruct (Nat.eq_dec k0 j) as [->|?]; [congruence|rewrite upd_other; auto].
+Ltac samepc Hpc := let k := fresh "k" in let X := fresh "X" in
+  solve [intros k _; pose proof (Hpc k) as X; destruct (cpc _ k); simpl in *; intuition auto].
 
 Theorem refine_step : forall c q a c' evs,
   Rel None c q -> cstep c a = Some (c', evs) -> exists q', accept q evs = Some q' /\ Rel None c' q'.
 Proof.
-  intros c q a c' evs R H. pose proof R as [Rq Rs Rc Rlk Rsub Rlu Rpc].
+  intros c q a c' evs R H. pose proof R as [Rq Rs Rc Rlk Rsub Rlu Rpc Rsn Run].
   assert (Hpc : forall k, pc_ok q k (cpc c k)) by (intro k; apply Rpc; discriminate).
   assert (Hlu : forall k a0, cpc c k = PListing a0 -> clock c = Some k) by (intros k a0; apply Rlu; discriminate).
-  destruct a as [j|j|j|j|j|j|j|]; simpl in H.
+  destruct a as [j|j|j|j|j|j|j| | | |]; simpl in H.
   - (* ASubmit *)
     destruct (cpc c j) eqn:Ej; try discriminate. inversion H; subst; clear H.
     pose proof (Hpc j) as Hj. rewrite Ej in Hj. simpl in Hj.
@@ -127,9 +166,12 @@ Proof.
     + lu j Hlu.
     + others j Hpc.
       * repeat split; [apply in_or_app; right; left; auto| | |]; intro X; apply Hj; apply Rsub; auto.
-      * apply (pc_ok_other q _ k (cpc c k) j Hne (Hpc k)); simpl; auto; try tauto.
+      * apply (pc_ok_other q _ k (cpc c k) j Hne (Hpc k)); simpl; auto.
         -- intros x Hx. apply in_or_app. auto.
         -- intros x Hx X. apply in_app_or in X. destruct X as [X|[X|[]]]; auto. congruence.
+    + keepund Run.
+      * intros x X. apply in_app_or in X. destruct X as [X|[X|[]]]; auto. subst. auto.
+      * intros x X. apply in_or_app. auto.
   - (* ASubmitRet: record *)
     destruct (cpc c j) eqn:Ej; try discriminate. inversion H; subst; clear H.
     pose proof (Hpc j) as Hj. rewrite Ej in Hj. simpl in Hj. destruct Hj as [h1 [h2 [h3 h4]]].
@@ -141,28 +183,27 @@ Proof.
     + intros x [X|X]; [apply in_app_or in X; destruct X as [X|[X|[]]]; [apply Rsub; auto|subst; auto]|apply Rsub; auto].
     + lu j Hlu.
     + others j Hpc.
-      * apply in_or_app. right. left. auto.
-      * apply (pc_ok_other q _ k (cpc c k) j Hne (Hpc k)); simpl; auto; try tauto.
-        intros x Hx. split; intro X. apply in_app_or in X. destruct X as [X|[X|[]]]; auto. congruence.
-        apply in_or_app. auto.
+      * exact h1.
+      * apply (pc_ok_other q _ k (cpc c k) j Hne (Hpc k)); simpl; auto.
+        intros x Hx X. apply in_app_or in X. destruct X as [X|[X|[]]]; auto. congruence.
   - (* AClear: the lock is free, so no squeue is in flight *)
     destruct (cpc c j) eqn:Ej; try discriminate. destruct (clock c) eqn:El; try discriminate.
     inversion H; subst; clear H. pose proof (Hpc j) as Hj. rewrite Ej in Hj. simpl in Hj.
     simpl. rewrite Rlk. simpl.
     eexists. split; [reflexivity|]. constructor; simpl; auto.
-    + intros x [X|[[X|X]|X]]; [apply Rsub; auto|subst; apply Rsub; auto|apply Rsub; auto|apply Rsub; auto].
+    + intros x [X|[[X|X]|X]]; [apply Rsub; auto|subst; auto|apply Rsub; auto|apply Rsub; auto].
     + intros k a0 _ Hk. destruct (Nat.eq_dec k j) as [->|Hne].
       * rewrite upd_same in Hk. discriminate.
       * rewrite upd_other in Hk; auto. pose proof (Hlu k a0 Hk) as X. rewrite ?El in X. discriminate.
     + others j Hpc.
-      * split; auto.
-      * apply (pc_ok_other q _ k (cpc c k) j Hne (Hpc k)); simpl; auto; try tauto.
-        intros x Hx. split; intro X; [destruct X as [X|X]; [congruence|auto]|auto].
+      * auto.
+      * apply (pc_ok_other q _ k (cpc c k) j Hne (Hpc k)); simpl; auto.
+        intros x Hx [X|X]; [congruence|auto].
   - (* APoll *)
     destruct (cpc c j) eqn:Ej; try discriminate. destruct (clock c) eqn:El; try discriminate.
-    pose proof (Hpc j) as Hj. rewrite Ej in Hj. simpl in Hj. destruct Hj as [h1 h2].
+    pose proof (Hpc j) as Hj. rewrite Ej in Hj. simpl in Hj.
     destruct (ccache c) as [l|] eqn:Ec.
-    + destruct (decide_ok c q j l (rel_weaken c q j R) Ec El h1 h2) as [q' [A B]].
+    + destruct (decide_ok c q j l (rel_weaken c q j R) Ec El Hj) as [q' [A B]].
       destruct (decide c j l) as [c2 evs2]. inversion H; subst; clear H. simpl in *. eauto.
     + inversion H; subst; clear H. simpl. rewrite Rlk, Rs, leqb_refl. simpl.
       eexists. split; [reflexivity|]. constructor; simpl; auto.
@@ -170,20 +211,20 @@ Proof.
       * rewrite <- Rs. exact Rsub.
       * intros k a0 _ Hk. destruct (Nat.eq_dec k j) as [->|Hne]; auto.
         rewrite upd_other in Hk; auto. pose proof (Hlu k a0 Hk) as X. discriminate.
-      * rewrite <- Rs. others j Hpc; [split; [exact h1|exact h2]|].
+      * rewrite <- Rs. others j Hpc; [exact Hj|].
         pose proof (Hpc k) as X. destruct (cpc c k); simpl in *; auto.
   - (* AListRet: squeue answered; cache filled; lock released; decide *)
     destruct (cpc c j) eqn:Ej; try discriminate.
-    pose proof (Hpc j) as Hj. rewrite Ej in Hj. simpl in Hj. destruct Hj as [h1 h2].
+    pose proof (Hpc j) as Hj. rewrite Ej in Hj. simpl in Hj.
     pose proof (Hlu j a Ej) as Hl. rewrite Hl in Rlk. destruct Rlk as [a0 [A B]]. rewrite Ej in A. inversion A; subst a0.
     set (r := filter (fun k => mem k (cq c)) a) in *.
-    set (c1 := mkC (cq c) (csched c) (Some r) None (cpc c)) in *.
+    set (c1 := mkC (cq c) (csched c) (Some r) None (cpc c) (csnap c) (cund c)) in *.
     set (q1 := mkQ (cq c) (ever q) (sched q) (cleared q) (Some r) None (snap q) (finished q)).
     assert (R1 : Rel (Some j) c1 q1).
     { constructor; simpl; auto.
       - intros k a1 Hk Hk'. exfalso. rewrite (Hlu k a1 Hk') in Hl. inversion Hl. congruence.
       - intros k Hk. pose proof (Hpc k) as X. destruct (cpc c k); simpl in *; auto. }
-    destruct (decide_ok c1 q1 j r R1 eq_refl eq_refl h1 h2) as [q' [A' B']].
+    destruct (decide_ok c1 q1 j r R1 eq_refl eq_refl Hj) as [q' [A' B']].
     destruct (decide c1 j r) as [c2 evs2] eqn:Ed. inversion H; subst; clear H.
     exists q'. split; auto. simpl. rewrite B, Rq. rewrite !leqb_refl. simpl. exact A'.
   - (* AWake *)
@@ -195,11 +236,32 @@ Proof.
     + others j Hpc; try exact Hj; try apply Hpc.
   - (* ALeave *)
     destruct (mem j (cq c)) eqn:Em; try discriminate. inversion H; subst; clear H.
-    simpl. rewrite Rq, Em. eexists. split; [reflexivity|]. constructor; simpl; auto;
-    try (intros k _; pose proof (Hpc k) as X; destruct (cpc c k); simpl in *; auto).
+    simpl. rewrite Rq, Em. eexists. split; [reflexivity|]. constructor; simpl; auto; try samepc Hpc.
+    keepund Run. intros x0 X0. apply In_del in X0. tauto.
   - (* AExpire *)
-    inversion H; subst; clear H. simpl. eexists. split; [reflexivity|]. constructor; simpl; auto;
-    try (intros k _; pose proof (Hpc k) as X; destruct (cpc c k); simpl in *; auto).
+    inversion H; subst; clear H. simpl. eexists. split; [reflexivity|]. constructor; simpl; auto; try samepc Hpc.
+  - (* AUndStart *)
+    destruct (cund c) eqn:Eu; try discriminate. simpl in Run.
+    destruct (csched c) as [|i0 ids0] eqn:Esc.
+    + inversion H; subst; clear H. simpl. eexists. split; [reflexivity|]. constructor; simpl; auto; try samepc Hpc.
+      * intros x0 [X0|X0]; [destruct X0|apply Rsub; auto].
+      * rewrite Rs. reflexivity.
+      * exists []. split; auto. intros x0 [].
+    + inversion H; subst; clear H. simpl. eexists. split; [reflexivity|]. constructor; simpl; auto; try samepc Hpc.
+      * rewrite Rs. reflexivity.
+      * split; auto. intros x X. apply Rsub. left. rewrite Rs. exact X.
+  - (* ACancel: scancel of exactly the snapshot *)
+    destruct (cund c) eqn:Eu; try discriminate. inversion H; subst; clear H. simpl in Run. destruct Run as [U1 U2].
+    simpl. rewrite Rsn, U1, leqb_refl. eexists. split; [reflexivity|]. constructor; simpl; auto; try samepc Hpc.
+    + rewrite Rq. reflexivity.
+    + exists ids. split; auto. intros x Hx. split; auto. intro X. apply filter_In in X. destruct X as [_ X].
+      rewrite (proj2 (mem_In x ids) Hx) in X. discriminate.
+  - (* AUndEnd: `self._scheduled_jobs = {}` *)
+    destruct (cund c) eqn:Eu; try discriminate. inversion H; subst; clear H. simpl in Run.
+    destruct Run as [l [U1 U2]]. simpl. rewrite Rsn, U1. eexists. split; [reflexivity|].
+    constructor; simpl; auto; try samepc Hpc.
+    + intros x [X|X]; [destruct X|apply Rsub; auto].
+    + exists l. auto.
 Qed.
 
 (* ---------------------------------------------------------------- executions *)
@@ -227,4 +289,15 @@ Proof.
   intros acts j H. destruct (refines acts c0 q0 rel_q0) as [q [A R]].
   pose proof (rpc _ _ _ R j) as P. rewrite H in P. simpl in P.
   rewrite <- (rq _ _ _ R). eapply after_queue; eauto. apply P. discriminate.
+Qed.
+
+(* once undeploy() has returned, every job that was recorded when it started is out of the queue (whatever the
+   jobs, leaves, expiries and polls that interleaved with its three stretches) *)
+Corollary coroutine_undeploy_cancels : forall acts,
+  cund (fst (cexec c0 acts)) = UDone ->
+  exists l, csnap (fst (cexec c0 acts)) = Some l /\ forall x, In x l -> ~ In x (cq (fst (cexec c0 acts))).
+Proof.
+  intros acts H. destruct (refines acts c0 q0 rel_q0) as [q [A R]].
+  pose proof (rund _ _ _ R) as U. rewrite H in U. simpl in U. destruct U as [l [U1 U2]].
+  exists l. split; auto. intros x Hx. apply (U2 x Hx).
 Qed.
